@@ -444,7 +444,103 @@ func c11GenXrd(r *Rng, tier string) c11XrdS {
 		x.DefCDP = &p
 	}
 	_ = tier
+	x.Meta = c11GenMeta(r)
 	return x
+}
+
+var c11XRDFinalizers = []string{"defined.apiextensions.crossplane.io", "offered.apiextensions.crossplane.io"}
+
+// c11GenMeta draws metadata / status of the XRD object a shortcut in the validation could key on:
+// terminating (deletionTimestamp, held by finalizers), finalizers present / absent, the paused
+// annotation, the generation, the status conditions.
+func c11GenMeta(r *Rng) *c11ObjMeta {
+	if r.Chance(2, 5) {
+		return nil
+	}
+	m := &c11ObjMeta{Finalizers: []string{}, Deleted: r.Chance(2, 5), Paused: r.Chance(1, 5), Generation: int64(r.Intn(4)), Established: r.Bool()}
+	switch r.Intn(4) {
+	case 0:
+		m.Finalizers = append(m.Finalizers, c11XRDFinalizers[0])
+	case 1:
+		m.Finalizers = append(m.Finalizers, c11XRDFinalizers...)
+	case 2:
+		m.Finalizers = append(m.Finalizers, "example.org/custom")
+	}
+	if m.Deleted && len(m.Finalizers) == 0 {
+		m.Finalizers = append(m.Finalizers, c11XRDFinalizers...)
+	}
+	return m
+}
+
+const c11ConvWebhook = `{"strategy":"Webhook","webhook":{"clientConfig":{"service":{"name":"conv","namespace":"crossplane-system","path":"/convert","port":443}},"conversionReviewVersions":["v1","v1beta1"]}}`
+
+// c11GenRecon draws the state the reconcilers find: the CRDs derived from an EARLIER state of the
+// XRD that had optional settings the current one no longer has (and sometimes lacked some).
+func c11GenRecon(r *Rng, x c11XrdS) *c11Recon {
+	rc := &c11Recon{ExtraLabels: map[string]string{}, ExtraAnnotations: map[string]string{}, Rounds: r.Range(1, 2)}
+	if r.Chance(1, 3) {
+		rc.ExtraLabels[Pick(r, []string{"team", "app", "example.org/by-hand"})] = "ops"
+	}
+	if r.Chance(1, 3) {
+		rc.ExtraAnnotations[Pick(r, []string{"note", "example.org/by-hand"})] = "kept?"
+	}
+	if r.Chance(1, 6) {
+		return rc // no CRD yet
+	}
+	p := c11CloneXrd(x)
+	p.Meta = nil
+	names := func(n *c11Names, kind string) {
+		switch r.Intn(4) {
+		case 0:
+			n.ShortNames = append(n.ShortNames, "old"+strings.ToLower(kind[:1]))
+		case 1:
+			if n.Singular == "" {
+				n.Singular = strings.ToLower(kind)
+			}
+		case 2:
+			if n.ListKind == "" {
+				n.ListKind = kind + "List"
+			}
+		case 3:
+			n.Categories = append(n.Categories, "retired")
+		}
+	}
+	for i, k := 0, r.Range(1, 4); i < k; i++ {
+		switch r.Intn(10) {
+		case 0, 1:
+			p.Conversion = json.RawMessage(c11ConvWebhook)
+		case 2:
+			names(&p.Names, p.Names.Kind)
+		case 3:
+			if p.ClaimNames != nil {
+				names(p.ClaimNames, p.ClaimNames.Kind)
+			}
+		case 4:
+			p.HasMeta = true
+			p.MetaLabels[Pick(r, []string{"tier", "example.org/l", "retired"})] = "m"
+		case 5:
+			p.HasMeta = true
+			p.MetaAnnotations[Pick(r, []string{"note", "example.org/a", "retired"})] = "x"
+		case 6:
+			p.Labels[Pick(r, []string{"app", "team", "retired"})] = "a"
+		case 7:
+			if len(p.Versions) < 4 {
+				p.Versions = append(p.Versions, c11Version{Name: "v0retired", Served: true, Columns: c11GenColumns(r), Schema: c11GenSchema(r)})
+			}
+		case 8:
+			if len(p.Versions) > 0 {
+				p.Versions[r.Intn(len(p.Versions))].Schema = c11GenSchema(r)
+			}
+		case 9:
+			q := "Manual"
+			p.DefCUP, p.DefCDP = &q, nil
+			if r.Bool() {
+				p.ClaimNames = nil // the claim was not offered then
+			}
+		}
+	}
+	rc.Prev = &p
+	return rc
 }
 
 func c11CloneXrd(x c11XrdS) c11XrdS {
@@ -487,6 +583,9 @@ func c11Near(r *Rng, s string) string {
 
 func c11GenOld(r *Rng, n c11XrdS) c11XrdS {
 	o := c11CloneXrd(n)
+	if r.Bool() {
+		o.Meta = c11GenMeta(r) // otherwise old and new agree in metadata (generation unchanged, ...)
+	}
 	for i, k := 0, r.Range(0, 2); i < k; i++ {
 		switch r.Intn(18) {
 		case 12:
@@ -734,6 +833,75 @@ func c11Sweep() []c11Scn {
 			}
 			out = append(out, c11Scn{Xrd: x})
 		}
+	}
+	// metadata-only states of old / new a shortcut could key on, for every immutable change, a claim
+	// collision, a refused CRD and an unchanged XRD (status-only / metadata-only difference)
+	{
+		fins := append([]string{}, c11XRDFinalizers...)
+		del := &c11ObjMeta{Deleted: true, Finalizers: fins, Generation: 2, Established: true}
+		live := &c11ObjMeta{Finalizers: fins, Generation: 2, Established: true}
+		bare := &c11ObjMeta{Finalizers: []string{}, Generation: 1}
+		paused := &c11ObjMeta{Finalizers: fins, Paused: true, Generation: 2, Established: true}
+		type mm struct{ o, n *c11ObjMeta }
+		for _, m := range []mm{{live, del}, {del, del}, {del, live}, {bare, live}, {live, bare}, {live, paused}, {paused, paused}, {nil, del}, {bare, nil}} {
+			for i := 0; i < 8; i++ {
+				n := base()
+				n.Versions = []c11Version{version("v1", true, map[string]any{"type": "object", "properties": map[string]any{"spec": map[string]any{"type": "object", "properties": map[string]any{"size": map[string]any{"type": "string"}}}}})}
+				o := c11CloneXrd(n)
+				srv := c11Server{ExistsXR: true, ExistsClaim: true}
+				switch i {
+				case 0:
+					o.Group = "old.example.org"
+				case 1:
+					o.Names.Kind = "XOld"
+				case 2:
+					o.Names.Plural = "xolds"
+				case 3:
+					o.ClaimNames.Kind = "Old"
+				case 4:
+					o.ClaimNames.Plural = "olds"
+				case 5: // the update introduces a collision
+					n.ClaimNames.Kind = n.Names.Kind
+				case 6: // the server refuses the new CRDs
+					srv.RejectProp = "size"
+				case 7: // nothing but metadata / status differs
+				}
+				n.Meta, o.Meta = m.n, m.o
+				out = append(out, c11Scn{Xrd: n, Old: &o, Server: srv})
+			}
+		}
+	}
+	// the reconcilers write the CRDs: stored CRDs derived from an earlier state that had a conversion
+	// webhook, short names, singular / listKind, categories, spec.metadata, labels, an extra version
+	{
+		cur := base()
+		cur.Names.Singular, cur.Names.ListKind = "", ""
+		cur.ClaimNames.Singular, cur.ClaimNames.ListKind = "", ""
+		cur.Versions = []c11Version{version("v1", true, map[string]any{"type": "object"})}
+		edits := []func(p *c11XrdS){
+			func(p *c11XrdS) { p.Conversion = json.RawMessage(c11ConvWebhook) },
+			func(p *c11XrdS) { p.Names.ShortNames, p.ClaimNames.ShortNames = []string{"xdb"}, []string{"db"} },
+			func(p *c11XrdS) { p.Names.Singular, p.ClaimNames.Singular = "xdatabase", "database" },
+			func(p *c11XrdS) { p.Names.ListKind, p.ClaimNames.ListKind = "XDatabaseList", "DatabaseList" },
+			func(p *c11XrdS) { p.Names.Categories, p.ClaimNames.Categories = []string{"retired"}, []string{"retired"} },
+			func(p *c11XrdS) { p.HasMeta, p.MetaLabels, p.MetaAnnotations = true, map[string]string{"tier": "m"}, map[string]string{"note": "x"} },
+			func(p *c11XrdS) { p.Labels = map[string]string{"app": "a"} },
+			func(p *c11XrdS) {
+				p.Versions = append(p.Versions, version("v0", false, map[string]any{"type": "object"}))
+			},
+			func(p *c11XrdS) { q := "Manual"; p.DefCUP = &q },
+			func(p *c11XrdS) { p.ClaimNames = nil },
+			func(p *c11XrdS) {},
+		}
+		for _, e := range edits {
+			p := c11CloneXrd(cur)
+			e(&p)
+			out = append(out,
+				c11Scn{Xrd: c11CloneXrd(cur), Recon: &c11Recon{Prev: &p, ExtraLabels: map[string]string{}, ExtraAnnotations: map[string]string{}, Rounds: 2}},
+				// and the other way round: the setting is new
+				c11Scn{Xrd: c11CloneXrd(p), Recon: &c11Recon{Prev: func() *c11XrdS { c := c11CloneXrd(cur); return &c }(), ExtraLabels: map[string]string{"team": "ops"}, ExtraAnnotations: map[string]string{"note": "by hand"}, Rounds: 1}})
+		}
+		out = append(out, c11Scn{Xrd: c11CloneXrd(cur), Recon: &c11Recon{ExtraLabels: map[string]string{}, ExtraAnnotations: map[string]string{}, Rounds: 2}})
 	}
 	// the author's top-level schema tries to alter the envelope
 	for _, top := range []map[string]any{
@@ -984,6 +1152,9 @@ func c11Gen(r *Rng, tier string) c11Scn {
 	}
 	s.Server = c11GenServer(r, s.Xrd, s.Old != nil)
 	s.More = []c11Scn{}
+	if r.Chance(1, 3) {
+		s.Recon = c11GenRecon(r, s.Xrd)
+	}
 	if r.Chance(1, 4) {
 		prev := s.Xrd
 		for i, k := 0, r.Range(1, 3); i < k; i++ {
